@@ -69,6 +69,9 @@ pub const MID_ROOTS: &[&str] = &[
     "4k3/8/8/8/8/5n2/4r3/4K3 w - - 0 1",
     "8/5P1k/8/8/8/8/8/4K3 w - - 0 1",
     "4k3/8/8/8/8/8/5p1K/8 b - - 0 1",
+    // maximal number of batches: 16 mobile pieces, two en-passant capturers, castling available
+    "4k3/8/8/1N1PpP2/7N/8/PPPBBPPP/R2QK2R w KQ e6 0 1",
+    "r2qk2r/pppbbppp/8/7n/1n1pPp2/8/8/4K3 b kq e3 0 1",
     // a pinned-piece zoo
     "4k3/4r3/8/q7/1P6/2N5/3PB3/r2BK2q w - - 0 1",
     "Q2bk2R/3p4/2N5/1P6/B7/8/4R3/4K3 b - - 0 1",
@@ -119,9 +122,13 @@ pub fn line_roots(sink: &Sink) -> Vec<(RootDesc, Board)> {
     out
 }
 
-pub const CLOCK_BASES: &[&str] = &[
-    "r3k2r/p1ppqpb1/bn2pnp1/3PN3/1p2P3/2N2Q1p/PPPBBPPP/R3K2R",
-    "4k3/7p/8/8/8/8/4P3/4K2R",
+/// (placement, castling field): positions whose clocks are varied over 98 / 99 / 100 and 65534 / 65535
+pub const CLOCK_BASES: &[(&str, &str)] = &[
+    ("r3k2r/p1ppqpb1/bn2pnp1/3PN3/1p2P3/2N2Q1p/PPPBBPPP/R3K2R", "KQkq"),
+    ("4k3/7p/8/8/8/8/4P3/4K2R", "K"),
+    // quiet checks and a quiet mate available to either side
+    ("r3k3/8/8/8/8/8/8/R3K3", "Qq"),
+    ("6k1/5ppp/8/8/8/8/5PPP/R3K3", "Q"),
 ];
 
 pub fn fen_roots(fens: &[String], sink: &Sink) -> Vec<(RootDesc, Board)> {
@@ -146,8 +153,7 @@ pub fn mid_roots(sink: &Sink) -> Vec<(RootDesc, Board)> {
 
 pub fn clock_roots(sink: &Sink) -> Vec<(RootDesc, Board)> {
     let mut fens = Vec::new();
-    for (i, base) in CLOCK_BASES.iter().enumerate() {
-        let rights = if i == 0 { "KQkq" } else { "K" };
+    for (base, rights) in CLOCK_BASES.iter() {
         for stm in ["w", "b"] {
             for hm in [98, 99, 100] {
                 for fm in [65534u32, 65535] {
@@ -386,6 +392,67 @@ impl RawUniverse for FourMen {
                 }
             }
         }
+    }
+}
+
+/// K + k + `n` further pieces of any kind/colour on any squares, for a few king placements.
+pub struct NMen {
+    pub kings: Vec<(Sq, Sq)>,
+    pub n: usize,
+}
+impl RawUniverse for NMen {
+    fn name(&self) -> String {
+        format!("S-{}MEN(kings={})", self.n + 2, self.kings.len())
+    }
+    fn bounds(&self) -> Value {
+        json!({"men": self.n + 2, "king_placements": self.kings, "pieces": "every multiset of P N B R Q of either colour on every set of squares", "sides": 2})
+    }
+    fn parts(&self) -> usize {
+        self.kings.len() * 640
+    }
+    fn part(&self, i: usize, f: &mut dyn FnMut(Pos)) {
+        // part = (king placement, code of the first piece); code = type * 64 + square, strictly
+        // increasing codes => each multiset / placement exactly once
+        let (wk, bk) = self.kings[i / 640];
+        let first = i % 640;
+        let types: Vec<(Kind, Col)> = Col::ALL.iter().flat_map(|&c| NONKING.iter().map(move |&k| (k, c))).collect();
+        let mut base = Pos::empty();
+        put(&mut base, wk, Kind::K, Col::W);
+        put(&mut base, bk, Kind::K, Col::B);
+        fn rec(p: &Pos, types: &[(Kind, Col)], min_code: usize, left: usize, f: &mut dyn FnMut(Pos)) {
+            if left == 0 {
+                for stm in Col::ALL {
+                    let mut q = p.clone();
+                    q.stm = stm;
+                    f(q);
+                }
+                return;
+            }
+            for code in min_code..640 {
+                let (k, c) = types[code / 64];
+                let s = (code % 64) as Sq;
+                if p.sq[s as usize].is_some() {
+                    continue;
+                }
+                let mut q = p.clone();
+                q.sq[s as usize] = Some((k, c));
+                rec(&q, types, code + 1, left - 1, f);
+            }
+        }
+        if self.n == 0 {
+            if first == 0 {
+                rec(&base, &types, 0, 0, f);
+            }
+            return;
+        }
+        let (k, c) = types[first / 64];
+        let s = (first % 64) as Sq;
+        if base.sq[s as usize].is_some() {
+            return;
+        }
+        let mut q = base.clone();
+        q.sq[s as usize] = Some((k, c));
+        rec(&q, &types, first + 1, self.n - 1, f);
     }
 }
 
